@@ -163,6 +163,8 @@ def py_len(it, x):
     if isinstance(x, SOpt):
         x = it.unopt(x)
     if isinstance(x, SList):
+        if x.items and x.items[0] is V.PENDING:
+            raise V.PendingRead('a trace is read before a postcondition has defined it')
         return len(x.items)
     if isinstance(x, SDict):
         return len(x.d)
